@@ -22,16 +22,20 @@ VARIABLES st,        \* [Callers -> "idle" | "called" | "ret"]
           stale,     \* callers parked although no colliding request was outstanding any more
           closing,   \* a user disconnect() has been called
           tcall, tret, \* [Callers -> time] of the call / of its return (-1: not yet)
+          nref, refAt,  \* refused connection attempts so far; [Callers -> nref at the time of the call]
+          life,         \* last announced node state ("" before the first)
           devs       \* deviations from the property that were needed to explain the execution
-ovars == <<st, key, where, released, recv, ans, handed, lost, lostAt, now, stale, devs, closing, tcall, tret>>
+ovars == <<st, key, where, released, recv, ans, handed, lost, lostAt, now, stale, devs, closing, tcall, tret, nref, refAt, life>>
 
 OInit == /\ st = [i \in Callers |-> "idle"] /\ key = [i \in Callers |-> ""]
          /\ where = [i \in Callers |-> "none"] /\ released = {} /\ recv = {} /\ ans = {}
-         /\ handed = {} /\ closing = FALSE /\ tcall = [i \in Callers |-> 0 - 1] /\ tret = [i \in Callers |-> 0 - 1] /\ lost = FALSE /\ lostAt = 0 /\ now = 0 /\ stale = {} /\ devs = {}
+         /\ handed = {} /\ closing = FALSE /\ tcall = [i \in Callers |-> 0 - 1] /\ tret = [i \in Callers |-> 0 - 1]
+         /\ nref = 0 /\ refAt = [i \in Callers |-> 0] /\ life = "" /\ lost = FALSE /\ lostAt = 0 - 1 /\ now = 0 /\ stale = {} /\ devs = {}
 
 Call(i, k) == /\ st[i] = "idle"
               /\ st' = [st EXCEPT ![i] = "called"] /\ key' = [key EXCEPT ![i] = k]
-              /\ tcall' = [tcall EXCEPT ![i] = now'] /\ UNCHANGED tret
+              /\ tcall' = [tcall EXCEPT ![i] = now'] /\ UNCHANGED <<tret, nref, life>>
+              /\ refAt' = [refAt EXCEPT ![i] = nref]
               /\ UNCHANGED <<where, released, recv, ans, handed, lost, lostAt, stale, devs, closing>>
 
 (* hints *)
@@ -40,55 +44,64 @@ Hint(i, place) ==
    /\ where' = [where EXCEPT ![i] = place]
    /\ stale' = IF place = "pending" /\ ~Colliding(i) THEN stale \cup {i}
                ELSE IF place = "txq" THEN stale \ {i} ELSE stale
-   /\ UNCHANGED <<st, key, released, recv, ans, handed, lost, lostAt, devs, closing, tcall, tret>>
+   /\ UNCHANGED <<st, key, released, recv, ans, handed, lost, lostAt, devs, closing, tcall, tret, nref, refAt, life>>
 EvSet(i) == /\ released' = released \cup {i}
-            /\ UNCHANGED <<st, key, where, recv, ans, handed, lost, lostAt, stale, devs, closing, tcall, tret>>
+            /\ UNCHANGED <<st, key, where, recv, ans, handed, lost, lostAt, stale, devs, closing, tcall, tret, nref, refAt, life>>
 
 (* the peer *)
 PeerRecv(i) == /\ recv' = recv \cup {i}
-               /\ UNCHANGED <<st, key, where, released, ans, handed, lost, lostAt, stale, devs, closing, tcall, tret>>
+               /\ UNCHANGED <<st, key, where, released, ans, handed, lost, lostAt, stale, devs, closing, tcall, tret, nref, refAt, life>>
 PeerSend(i) == /\ i \in recv /\ ans' = ans \cup {i}
-               /\ UNCHANGED <<st, key, where, released, recv, handed, lost, lostAt, stale, devs, closing, tcall, tret>>
+               /\ UNCHANGED <<st, key, where, released, recv, handed, lost, lostAt, stale, devs, closing, tcall, tret, nref, refAt, life>>
 Lose == /\ lost' = TRUE /\ lostAt' = (IF lost \/ closing THEN lostAt ELSE now')
-        /\ UNCHANGED <<st, key, where, released, recv, ans, handed, stale, devs, closing, tcall, tret>>
+        /\ UNCHANGED <<st, key, where, released, recv, ans, handed, stale, devs, closing, tcall, tret, nref, refAt, life>>
 (* the user asks for a shutdown: from now on callers may be released with a connection error *)
 DiscCall == /\ closing' = TRUE /\ lostAt' = (IF lost \/ closing THEN lostAt ELSE now')
-            /\ UNCHANGED <<st, key, where, released, recv, ans, handed, stale, devs, lost, tcall, tret>>
+            /\ UNCHANGED <<st, key, where, released, recv, ans, handed, stale, devs, lost, tcall, tret, nref, refAt, life>>
 
+(* the node accepts connections again (only with a client that reconnects by itself) *)
+Reopen == /\ lost' = FALSE
+          /\ UNCHANGED <<st, key, where, released, recv, ans, handed, lostAt, stale, devs, closing, tcall, tret, nref, refAt, life>>
+Refused == /\ nref' = nref + 1
+           /\ UNCHANGED <<st, key, where, released, recv, ans, handed, lost, lostAt, stale, devs, closing, tcall, tret, refAt, life>>
+(* node state callbacks: after the shutdown was announced nothing else is announced *)
+StateCb(online, state) == /\ (life = "shutdown" => (state = "shutdown" /\ ~online))
+                          /\ life' = state
+                          /\ UNCHANGED <<st, key, where, released, recv, ans, handed, lost, lostAt, stale, devs, closing, tcall, tret, nref, refAt>>
 (* what the property allows a caller to get *)
 RetReply(i, gid) ==          \* its own reply, handed to nobody else
    /\ st[i] = "called" /\ gid = i /\ i \in ans /\ gid \notin handed
    /\ handed' = handed \cup {gid}
    /\ st' = [st EXCEPT ![i] = "ret"] /\ tret' = [tret EXCEPT ![i] = now']
-   /\ UNCHANGED <<key, where, released, recv, ans, lost, lostAt, stale, devs, closing, tcall>>
+   /\ UNCHANGED <<key, where, released, recv, ans, lost, lostAt, stale, devs, closing, tcall, nref, refAt, life>>
 RetTimeout(i, dt) ==         \* only a peer that ignored the request, on a live connection, after the time-out
    /\ st[i] = "called" /\ ~lost /\ dt >= Tmo /\ dt <= Tmo + 5
    /\ \E j \in Callers : /\ key[j] = key[i] /\ j \in recv /\ j \notin ans      \* own or colliding request ignored,
                          /\ (j = i \/ st[j] = "called" \/ tret[j] >= tcall[i])   \* the colliding one still outstanding when i called
    /\ st' = [st EXCEPT ![i] = "ret"] /\ tret' = [tret EXCEPT ![i] = now']
-   /\ UNCHANGED <<key, where, released, recv, ans, handed, lost, lostAt, stale, devs, closing, tcall>>
+   /\ UNCHANGED <<key, where, released, recv, ans, handed, lost, lostAt, stale, devs, closing, tcall, nref, refAt, life>>
 RetConnErr(i) ==             \* connection error, promptly after the loss
-   /\ st[i] = "called" /\ (lost \/ closing) /\ now' <= lostAt + Prompt
+   /\ st[i] = "called" /\ (lost \/ closing \/ (lostAt >= 0 /\ tcall[i] <= lostAt)) /\ now' <= lostAt + Prompt
    /\ st' = [st EXCEPT ![i] = "ret"] /\ tret' = [tret EXCEPT ![i] = now']
-   /\ UNCHANGED <<key, where, released, recv, ans, handed, lost, lostAt, stale, devs, closing, tcall>>
+   /\ UNCHANGED <<key, where, released, recv, ans, handed, lost, lostAt, stale, devs, closing, tcall, nref, refAt, life>>
 
 RetRefused(i) ==             \* a caller that arrived after the loss: its own reconnect attempt was refused
-   /\ st[i] = "called" /\ (lost \/ closing) /\ where[i] = "none"     \* nothing of it was ever queued or sent
+   /\ st[i] = "called" /\ (lost \/ closing \/ nref > refAt[i]) /\ where[i] = "none"     \* nothing of it was ever queued or sent
    /\ st' = [st EXCEPT ![i] = "ret"] /\ tret' = [tret EXCEPT ![i] = now']
-   /\ UNCHANGED <<key, where, released, recv, ans, handed, lost, lostAt, stale, devs, closing, tcall>>
+   /\ UNCHANGED <<key, where, released, recv, ans, handed, lost, lostAt, stale, devs, closing, tcall, nref, refAt, life>>
 
 (* named deviations of the pinned implementation (known findings); each records itself *)
 Dev(i, name) == /\ st[i] = "called" /\ st' = [st EXCEPT ![i] = "ret"] /\ tret' = [tret EXCEPT ![i] = now']
                 /\ devs' = devs \cup {name}
-                /\ UNCHANGED <<key, where, released, recv, ans, handed, lost, lostAt, stale, closing, tcall>>
+                /\ UNCHANGED <<key, where, released, recv, ans, handed, lost, lostAt, stale, closing, tcall, nref, refAt, life>>
 (* a request parked behind a colliding one *after* that one had been answered: nobody re-queues it *)
 Dev_TimeoutStalePark(i) == i \in stale /\ where[i] = "pending" /\ i \notin recv /\ ~lost /\ Dev(i, "TimeoutStalePark")
 (* a request still sitting in (or put into) the transmit queue when the connection was torn down *)
 Dev_TimeoutLostInTxq(i) == lost /\ where[i] \in {"txq", "tx"} /\ i \notin released /\ Dev(i, "TimeoutLostInTxq")
 
-DiscRetOK == UNCHANGED <<st, key, where, released, recv, ans, handed, lost, lostAt, stale, devs, closing, tcall, tret>>
+DiscRetOK == UNCHANGED <<st, key, where, released, recv, ans, handed, lost, lostAt, stale, devs, closing, tcall, tret, nref, refAt, life>>
 Dev_DiscRaised(who) == /\ devs' = devs \cup {"JoinOnClearedHandle"}
-                       /\ UNCHANGED <<st, key, where, released, recv, ans, handed, lost, lostAt, stale, closing, tcall, tret>>
+                       /\ UNCHANGED <<st, key, where, released, recv, ans, handed, lost, lostAt, stale, closing, tcall, tret, nref, refAt, life>>
 
 (* invariants over the observable state (mirror Client.tla's) *)
 AtMostOnce == Cardinality(handed) = Cardinality({i \in Callers : st[i] = "ret" /\ i \in handed})
